@@ -970,7 +970,12 @@ def describe(prog, body, x, depth=0, seen=None):
 def _describe_place(prog, body, pl, depth, seen):
     l = pl["l"]
     fields = [e for e in pl["p"] if e[0] == "f"]
-    base = _describe_local(prog, body, l, depth, seen)
+    if body.kind in ("closure", "coroutine") and l == 1 and fields:
+        f0 = fields[0][1]
+        base = ("upvar", f0, next((u["name"] for u in body.upvars if u["field"] == f0), None))
+        fields = fields[1:]
+    else:
+        base = _describe_local(prog, body, l, depth, seen)
     for f in fields:
         idx = f[1]
         if base[0] == "variant" and idx < len(base[3]):
@@ -1011,17 +1016,9 @@ def _describe_def(prog, body, d, depth, seen):
     k = rv["k"]
     if k in ("use", "cast"):
         o = rv["o"]
-        if body.kind in ("closure", "coroutine") and op_local(o) == 1:
-            f = _first_field(o["pl"])
-            if f is not None:
-                return ("upvar", f, next((u["name"] for u in body.upvars if u["field"] == f), None))
         return describe(prog, body, o, depth + 1, seen)
     if k in ("ref", "rawptr"):
         pl = rv["pl"]
-        if body.kind in ("closure", "coroutine") and pl["l"] == 1:
-            f = _first_field(pl)
-            if f is not None:
-                return ("upvar", f, next((u["name"] for u in body.upvars if u["field"] == f), None))
         return _describe_place(prog, body, pl, depth + 1, seen)
     if k == "agg":
         ops = [describe(prog, body, o, depth + 1, seen) for o in rv["ops"]]
@@ -1138,3 +1135,27 @@ def must_pass(body, from_blocks, to_blocks, through_nodes=(), through_edges=(), 
         if t in seen:
             return body.path_to(starts, t, removed_nodes=through_nodes, removed_edges=through_edges)
     return None
+
+
+def describe_upvar(prog, closure_body, field):
+    """Description, in the parent body, of the value captured as upvar `field` of a closure."""
+    parent = prog.bodies.get(closure_body.parent)
+    if parent is None:
+        return ("upvar", field, None)
+    for b, blk in enumerate(parent.blocks):
+        for s in blk["stmts"]:
+            rv = s.get("rv")
+            if rv and rv.get("k") == "agg" and rv.get("def") == closure_body.path and field < len(rv["ops"]):
+                return describe(prog, parent, rv["ops"][field])
+    return ("upvar", field, None)
+
+
+def resolve_upvars(prog, closure_body, desc):
+    """Replace ('upvar', f, name) nodes of a description by their parent-side descriptions."""
+    if isinstance(desc, tuple):
+        if desc and desc[0] == "upvar":
+            return describe_upvar(prog, closure_body, desc[1])
+        return tuple(resolve_upvars(prog, closure_body, x) for x in desc)
+    if isinstance(desc, list):
+        return [resolve_upvars(prog, closure_body, x) for x in desc]
+    return desc
